@@ -3,6 +3,7 @@
 package throttle
 
 import (
+	"strings"
 	"encoding/binary"
 	"errors"
 	"fmt"
@@ -461,6 +462,10 @@ func vfRunC05(c vfThrCase) *kit.Result {
 	r := &kit.Result{}
 	if !vfThrCaseOK(c) {
 		r.Failf("malformed case")
+		return r
+	}
+	if msg := vfProductionClockMonotonic(); msg != "" {
+		r.Failf("%s", msg)
 		return r
 	}
 	run := vfRunThrottle(c)
@@ -1024,4 +1029,16 @@ func TestVF_C06(t *testing.T) {
 	kit.Drive(t, "C06", "TestVF_C06",
 		"generated: request/clock schedules as in C05 restricted to caller-well-formed sessions (start; writes; stop), a quarter of them with a frozen clock, the others with requests placed 1 ns before (or right when) a full clip of budget becomes available and, in half of these, a clock that moves on by 1 ns - 1 us at every reading (time passes while a request is served), plus the wrapped recorder's start failing at generated ordinals. Oracle: (1) model-free invariants on the wrapped recorder's call trace and the event listener - bracket protocol, each caller request maps to an allowed shape (open: frame or cut; closed: nothing, failed start, restart = start+frame), exactly one event per suppressed start and per cut and none otherwise, stop forwarded iff a file is open, a cut file holds >= min-length frames, background/threshold/frame passed through unchanged; (2) budget sandwich from the forwarded frames alone: certainly-available budget (>= bucket - consumed, >= 0.99*rate*elapsed - 2 - consumed since any earlier point) forces forwarding / restart, certainly-unavailable budget (< min length by bucket - consumed + 1.01*rate*elapsed + 2 from any earlier point) forbids a (re)start; (3) exact counter model when the clock never advances. Non-trivial: a cut followed by a mid-trigger restart, or a failing start after throttling began.",
 		vfGenC06, vfRunC06)
+}
+
+
+// vfProductionClockMonotonic: the clock the daemon's constructor hands to the token bucket must carry Go's
+// monotonic reading; without it the bucket's elapsed time follows wall-clock steps (NTP setting the time of a
+// Pi without a battery-backed clock) and a step forward is credited as refill earned.
+func vfProductionClockMonotonic() string {
+	t0 := new(realClock).Now()
+	if !strings.Contains(t0.String(), " m=") {
+		return fmt.Sprintf("the production clock returns %q: no monotonic reading, so a forward step of the wall clock counts as time during which refill was earned", t0.String())
+	}
+	return ""
 }
